@@ -1,5 +1,5 @@
 """C01 - a chain never returns a stale or foreign result."""
-from ..store_check import run_families
+from ..store_check import scaled, run_families
 
 RELEVANT = {'value', 'error', 'visible'}
 
@@ -28,14 +28,7 @@ def plans(quick):
                  gen=dict(steps=4, slots=1, lists=[['w1'], ['w3'], ['w4'], ['w1', 'w2'], ['w2', 'w4']]), cover_limit=120, walks=40,
                  sim=dict(num=60, depth=12)),
         ]
-    return [
-        dict(family='kinds', opts={'gens': True}, checks=[dict(steps=4, slots=1)], gen=dict(steps=4, slots=1), walks=200,
-             walk_len=14, sim=dict(num=800, depth=14)),
-    ] + [
-        dict(family=f, checks=[dict(steps=5, slots=2), dict(steps=7, slots=2, force=False, fail=False, count=True)],
-             gen=dict(steps=(4 if f == 'chain' else 5), slots=1), walks=300, walk_len=16, sim=dict(num=600, depth=16))
-        for f in ('chain', 'mounts', 'diamond', 'levels', 'wiring')
-    ]
+    return scaled(plans(True), 3)
 
 
 def run(ctx):
